@@ -432,6 +432,16 @@ pub fn lib_prove<P: G>(b: &Built<P>, ctx: &Ctx, rng: &mut HRng) -> Result<RangeP
     P::prove(&mut t, &b.statement, &b.witness, rng)
 }
 
+/// An honest prove the caller's question depends on but is not about: refusal AND panic both end the case as
+/// `honest-precondition-failed(skipped)` (the properties that own "the prover works" judge it themselves)
+pub fn lib_prove_honest<P: G>(b: &Built<P>, ctx: &Ctx, rng: &mut HRng) -> RangeProof<P> {
+    match catch(|| lib_prove(b, ctx, rng)) {
+        Ok(Ok(p)) => p,
+        Ok(Err(e)) => std::panic::panic_any(HonestPrecondition(format!("an honest prove failed: {}", crate::api::err_name(&e)))),
+        Err(p) => std::panic::panic_any(HonestPrecondition(format!("an honest prove panicked: {}", p))),
+    }
+}
+
 pub fn lib_verify_one<P: G>(
     st: &RangeStatement<P>,
     proof: &RangeProof<P>,
